@@ -401,12 +401,32 @@ def derived_region(db: dict, T: R.Tables) -> dict:
 
 
 def extra_obligations(run: report.Run) -> list:
-    """Obligations of the pyvc engine about the code that *uses* the lemma, to be filled in:
-    AhocorasickTokenizer.get_extractors/post (result = unfiltered U {e | some s in e.strings
-    occurs in t} U {e | some s.lower() occurs in t.lower()} over the list captured in
-    __post_init__), __post_init__/uses_own_extractors, make_ahocorasick_filter/post (E-AHO).
-    Returns a list of Obligation objects (already decided)."""
-    return []
+    """The clause "for every extractor list" (DESIGN 13.12): a syntactic obligation on AhocorasickTokenizer.__post_init__ (the filters are
+    built from the tokenizer's own list) and a bounded differential over random sub-lists (checks/c13_sublists.py, under /venv/bin/python)."""
+    out = []
+    try:
+        p = subprocess.run([VENV_PY, os.path.join(report.VERIF, "checks", "c13_sublists.py"), "--seed", str(run.seed)],
+                           capture_output=True, text=True, env=child_env(), timeout=900, cwd="/tmp")
+        d = json.loads(p.stdout.strip().splitlines()[-1])
+    except Exception as ex:
+        run.notes.append("c13_sublists failed to run: %r" % (ex,))
+        return out
+    o = Obligation("tokenizers.AhocorasickTokenizer.__post_init__/syntactic:filters_built_from_own_extractors", [], None, {}, PROP, "post")
+    o.status = "discharged" if d.get("syntactic_ok") else "refuted"
+    o.solver = "ast"
+    o.smt2 = o.raw = d.get("why", "")
+    out.append(o)
+    run.extra["bounded_sublist_differential"] = {"label": "bounded (never counted as proved)", "evaluations": d.get("evaluations"),
+                                                 "bound": d.get("bound"), "violations": len(d.get("violations", []))}
+    seen = set()
+    for v in d.get("violations", []):
+        if v.get("clause") in seen:
+            continue
+        seen.add(v.get("clause"))
+        run.violation("standin:%s" % v.get("clause"), {"input": v, "source": "bounded sub-list differential (checks/c13_sublists.py)"}, True)
+    if o.status == "refuted" and not d.get("violations"):
+        run.violation(o.name, {"obligation": o.name, "why": o.raw}, False)
+    return out
 
 
 def main(argv=None) -> int:
